@@ -1,5 +1,5 @@
 """C12 - meson test runs each test once, isolates serial tests, reports truthfully."""
-import asyncio, argparse
+import asyncio, argparse, os
 from symx.api import *
 
 PROPERTY = 'C12'
@@ -248,6 +248,41 @@ def ob_slice(ntests):
     return h
 
 
+PATTERNS = ['a1', 'a*', '*', 'p:', 'p:a1', ':a1', 'q:*', 'b1', '*1', 'p:a*']
+
+
+def ob_select():
+    """positional test names: `meson test pat1 pat2 ...` selects every test matched by SOME pattern exactly once (patterns may overlap), in the
+    original order; combined with --slice the slices still partition the selection"""
+    def h():
+        from fnmatch import fnmatchcase
+        tests = []
+        for proj, name in (('p', 'a1'), ('p', 'a2'), ('q', 'a1'), ('q', 'b1')):
+            t = FakeTest(name, [proj + ':s']); t.project_name = proj; tests.append(t)
+        npat = 1 + choose(3, 'npatterns')
+        args = [PATTERNS[choose(len(PATTERNS), 'pattern%d' % i)] for i in range(npat)]
+
+        def matches(t, arg):
+            sub, name = (arg.split(':', 1) if ':' in arg else ('*', arg))
+            return fnmatchcase(t.project_name, sub or '*') and fnmatchcase(t.name, name or '*')
+        expect = [t for t in tests if any(matches(t, a) for a in args)]
+        hh = object.__new__(M.TestHarness)
+        hh.tests = tests
+        hh.build_data = argparse.Namespace(project_name='p')
+        hh.options = argparse.Namespace(exclude=[], exclude_suites=[], include_suites=[], setup=None, args=list(args), slice=None)
+        got = hh.get_tests(errorfile=open(os.devnull, 'w'))
+        check(len(got) == len(expect) and all(a is b for a, b in zip(got, expect)), 'every test matched by some pattern is selected exactly once, in order')
+        if len(expect) >= 2:
+            seen = []
+            for i in (1, 2):
+                hh.options.slice = (i, 2)
+                for t in hh.get_tests(errorfile=open(os.devnull, 'w')):
+                    check(all(t is not u for u in seen), 'slices of a name selection are disjoint'); seen.append(t)
+            check(len(seen) == len(expect), 'slices of a name selection cover it'); cover('sliced')
+        cover('selected' if expect else 'nothing')
+    return h
+
+
 def obligations(tier):
     q = tier == 'quick'
     out = []
@@ -261,6 +296,7 @@ def obligations(tier):
     for k in (1, 2) if q else (1, 2, 3):
         out.append(Obligation('classify[%d]' % k, ob_classify(k), dict(results=k, returncode='any integer', expected_exitcode='None|0|any', should_fail='symbolic'),
                               labels=tuple(NAMES), max_paths=3000000))
+    out.append(Obligation('select', ob_select(), dict(tests='p:a1 p:a2 q:a1 q:b1', patterns='1-3 of %d name patterns (overlapping ones included)' % len(PATTERNS)), labels=('selected', 'sliced'), optional_labels=('nothing',)))
     out.append(Obligation('doit-job-clamp', ob_doit(), dict(tests='1-3', num_processes='symbolic 1..6', repeat='symbolic 1..3'), labels=('done',)))
     for n in (1, 3, 4) if q else (1, 2, 3, 4, 5, 6):
         out.append(Obligation('slice[%d tests]' % n, ob_slice(n), dict(tests=n, slice_arg='d/d with symbolic digits'), labels=('partition', 'rejected')))
